@@ -24,7 +24,7 @@ ID = "C20"
 TITLE = "text-oriented writers"
 LEVEL = "exploration"
 RULE = (
-    "cases = seeded recipes of six kinds: csv / line / text = a sequence of 1-10 records alternating between 1-3 types "
+    "cases = seeded recipes of nine kinds: csv / line / text = a sequence of 1-10 records alternating between 1-3 types "
     "(all serialisable field types, pool values; text-like cells biased to delimiters, quotes, CR, LF, CRLF, tab, NUL, "
     "unicode, surrogate-escaped bytes, leading/trailing blanks; timestamps at the year limits with offsets; grouped "
     "records) written by the real writer under options fields / exclude (lists, comma strings, URI query; unknown, "
@@ -37,7 +37,12 @@ RULE = (
     "configuration (FLOW_RECORD_TZ=NONE, several zones, unset) rendering timestamps of the SAME instant with DIFFERENT offsets one after "
     "the other through str/repr/format and the csv, line, text writers against the stdlib reference isoformat(' ') resp. "
     "astimezone(zone).isoformat(' ').  filesize values cover every magnitude class int(log(|x|,10.24)) = 12..19, positive and negative, "
-    "scalar, filesize[] and nested.  Non-trivial = at least one record rendered / read; distinct = distinct (kind, option set, type shapes, sub-seed).  "
+    "scalar, filesize[] and nested.  rdumpcsv = the rdump tool as a child process with --csv / -C / --mode=csv / -m csv over a stream of "
+    "such records: stdout parsed by csv.reader (default dialect) == header per run + one row per record (no known finding applies to this "
+    "default-terminator path).  defang = the documented defang format spec against a regex-free reference model (scheme rewrite at the start "
+    "in any letter case with or without dots, last host dot, dotted quads) over dot-less / IPv6-literal / single-label / scheme-only / mixed-case "
+    "/ multi-URL values through format(), str.format, f-strings on string, uri, net.ipaddress values and through text-writer templates; "
+    "rdumpfmt = rdump -f/--format TEMPLATE in a child process == template applied to each record.  Non-trivial = at least one record rendered / read; distinct = distinct (kind, option set, type shapes, sub-seed).  "
     "Oracle: written bytes decoded with surrogateescape; CSV parsed by csv.reader (excel dialect) == header row per run "
     "of one type + one row of str(value) cells (None -> empty) per record; line output matched block by block "
     "('--[ RECORD n ]--', one right-aligned 'name = value' line per selected field, verbose adds ' (type)'); text "
@@ -47,6 +52,8 @@ RULE = (
 )
 ASSUMPTIONS = [
     "in the tzdisplay worker the text form of a timestamp is checked against an independent stdlib reference (its own stored wall clock and offset under FLOW_RECORD_TZ=NONE, the instant in the display zone otherwise); everywhere else the text form of a value is Python's str(value) (repr / format(value, spec) in text output): value-level rendering is shared with the implementation, layout is modelled independently; display-timezone independence is C13's",
+    "the reference of the defang spec encodes the rules documented at the pinned revision (six schemes, anchored at the start of the value, case-insensitive; dot before the last word run that ends at end-of-value, '/' or ':'; third dot of a dotted quad); a final line feed counts as end of value",
+    "rdump child-process cases take their reference from the records as the real reader returns them from the source file (stream round-trip effects are C01's)",
     "the process encoding is UTF-8 (the CSV writer opens its file with the locale encoding)",
     "the column / line order of a grouped record's flat view is not pinned (compared as a mapping); for plain records the order is the descriptor's or the fields option's",
     "field names equal to GroupedRecord's own attributes (name, records, ...) are not generated here (C15 known finding)",
@@ -72,7 +79,8 @@ ANCHORS = [
 ]
 KEY_BARE_NL = "csv-bare-newline-custom-terminator"
 
-KINDS = [("csv", 35), ("line", 22), ("text", 23), ("csvread", 12), ("gmutwrite", 8)]
+KINDS = [("csv", 33), ("line", 21), ("text", 23), ("csvread", 11), ("gmutwrite", 7), ("defang", 5)]
+RDUMP_CSV_MODES = [["--csv"], ["-C"], ["--mode=csv"], ["-m", "csv"]]
 TZ_ZONES = ["Europe/Amsterdam", "America/New_York", "Asia/Kathmandu", "Australia/Lord_Howe", "UTC"]
 WORKER_TIMEOUT_S = 120
 VERIF_DIR = os.path.dirname(os.path.dirname(os.path.dirname(os.path.abspath(__file__))))
@@ -92,6 +100,14 @@ EDGE_DATETIMES = [
     _dt.datetime(1, 1, 1, 1, tzinfo=TZ(_dt.timedelta(hours=5))), _dt.datetime(1, 1, 1, 0, 0, tzinfo=TZ(_dt.timedelta(hours=14))),
     _dt.datetime(9999, 12, 31, 23, tzinfo=TZ(_dt.timedelta(hours=-5))), _dt.datetime(9999, 12, 31, 23, 59, 59, 999999, tzinfo=TZ(_dt.timedelta(hours=-12))),
     _dt.datetime(1, 1, 1, 0, 0, 0, tzinfo=TZ(_dt.timedelta(seconds=1))), _dt.datetime(9999, 12, 31, 23, 59, 59, tzinfo=_dt.timezone.utc),
+]
+# values for the `defang` format spec: with and without dots, IPv6 literals, single-label hosts, scheme only, mixed case, several URLs
+DEFANG_VALUES = [
+    "http://localhost:8080/admin", "https://[::1]/index", "ldap://dc01/", "ldaps://dc01/", "file:///etc/passwd", "ftp://fileserver/pub", "HTTP://intranet/",
+    "hTTpS://LocalHost", "http://", "https://", "ftp://", "http://www.example.com/a", "https://10.0.0.1/x", "example.org", "10.0.0.1", "plain text",
+    "http://a.b http://localhost/x", "see http://localhost/ and https://x.y/z", "http://localhost/ https://intranet/", "www.example.com", "a.b.c.d:8080/p.q",
+    "192.168.1.254, 10.0.0.1)", "1.2.3.4.5.6.7.8,", "1.2.3", "mailto:user@host", "//netloc/only", "x.y:", "file://server/share/file.txt", "ldap://dc01.corp.local/",
+    "http://[2001:db8::1]:8080/", "https://user:pw@localhost/", "http://localhost\n", "ünï.example/ü", "http://ünï/", "no_dot_here", ".", "..", "a.", ".a", "",
 ]
 LT_OPTIONS = [None, None, "\\n", "\\r\\n", "\\r", "\n", "\r"]
 SAFE_ALPHABET = "abcdefghijklmnopqrstuvwxyzABCDEFXYZ0123456789_.-éü日本😀"
@@ -118,9 +134,14 @@ def generate(ctx):
     weights = [w for _, w in KINDS]
     tz_plan = ["NONE", rng.choice(TZ_ZONES), "NONE"] if ctx.quick else ["NONE", "NONE", None, "NONE"] + rng.sample(TZ_ZONES, 3) + ["NONE"]
     every = max(1, total // len(tz_plan))
+    tool_plan = [("rdumpcsv", m) for m in rng.sample(RDUMP_CSV_MODES, len(RDUMP_CSV_MODES))][:ctx.scale(3, 4)] * ctx.scale(1, 3) + [("rdumpfmt", None)] * ctx.scale(2, 6)
+    tool_every = max(1, total // len(tool_plan))
     for i in range(total):
         if i % every == 0 and tz_plan:
             yield {"k": "tzdisplay", "tz": tz_plan.pop(0), "n": ctx.scale(25, 60), "s": subseed("c20", ctx.seed, ctx.shard, "tz", i)}
+        if i % tool_every == 0 and tool_plan:
+            k, mode = tool_plan.pop(0)
+            yield {"k": k, "mode": mode, "s": subseed("c20", ctx.seed, ctx.shard, k, i)}
         kind = rng.choices(kinds, weights)[0]
         yield {"k": kind, "s": subseed("c20", ctx.seed, ctx.shard, kind, i)}
 
@@ -163,6 +184,8 @@ class Maker:
         rng = self.rng
         if rng.random() < 0.12:
             return None
+        if ftype in TEXTY and rng.random() < 0.15:
+            return rng.choice(DEFANG_VALUES)
         if ftype in TEXTY and rng.random() < 0.55:
             return self.hostile_text()
         if ftype == "string[]" and rng.random() < 0.4:
@@ -575,7 +598,8 @@ def do_line(ctx, case, mk):
 
 # ---- text --------------------------------------------------------------------------------------------
 SPECS = {
-    "string": ["", ">12", "<8", "^10", ".3", "*^9", "!r", "!s"], "wstring": ["", ">7", "!r"], "uri": ["", "!r", "<30"],
+    "string": ["", ">12", "<8", "^10", ".3", "*^9", "!r", "!s", "defang", "defang"], "wstring": ["", ">7", "!r", "defang"],
+    "uri": ["", "!r", "<30", "defang", "defang"], "net.ipaddress": ["", "defang", "!s"],
     "varint": ["", "d", "x", "08d", ",", ">6", "!r"], "filesize": ["", "d", "!r"], "uint16": ["", "d", "x", "05d"], "uint32": ["", "d", "X"],
     "float": ["", ".2f", "e", "g", ">10.3f", "!r"], "datetime": ["", "%Y-%m-%d", "%H:%M:%S", "!r", "!s"], "bytes": ["", "hex", "x", "X", "#x", "!r"],
     "boolean": ["", "!r", "!s"], "path": ["", "!r", "!s"], "digest": ["", "!r"], "command": ["", "!r"],
@@ -1089,7 +1113,249 @@ def do_tzdisplay(ctx, case, mk):
     ctx.nontrivial("tzdisplay", case.get("tz"), case["s"])
 
 
-DISPATCH = {"csv": do_csv, "line": do_line, "text": do_text, "csvread": do_csvread, "gmutwrite": do_gmutwrite, "tzdisplay": do_tzdisplay}
+# ---- the rdump tool's stdout modes (child process) -----------------------------------------------------------
+def run_rdump(ctx, args):
+    """`python -m flow.record.tools.rdump <args>` in a child process importing the tree under test.  -> stdout bytes or None."""
+    env = dict(os.environ)
+    repo = os.environ.get("VERIF_REPO")
+    if repo and os.path.realpath(repo) != "/repo":
+        env["PYTHONPATH"] = repo + os.pathsep + env.get("PYTHONPATH", "")
+    env.pop("FLOW_RECORD_TZ", None)
+    if os.environ.get("FLOW_RECORD_TZ"):
+        env["FLOW_RECORD_TZ"] = os.environ["FLOW_RECORD_TZ"]
+    try:
+        p = subprocess.run([sys.executable, "-W", "ignore", "-m", "flow.record.tools.rdump"] + list(args), env=env, capture_output=True, timeout=WORKER_TIMEOUT_S)
+    except subprocess.TimeoutExpired:
+        ctx.require(False, "an rdump child process exceeded its %d s watchdog" % WORKER_TIMEOUT_S)
+        return None
+    ctx.event("rdump_children_run")
+    if p.returncode != 0:
+        ctx.violation(None, "rdump failed for valid records (exit %s)" % p.returncode,
+                      detail={"args": [a if not a.startswith(ctx.state["tmp"]) else "<src>" for a in args], "stderr": p.stderr.decode("utf-8", "replace")[-1500:]})
+        return None
+    return p.stdout
+
+
+def write_source(ctx, records):
+    """Records into a stream file; -> (path, the records as the real reader returns them) - the reference for what rdump renders."""
+    from flow.record import RecordReader, RecordWriter
+
+    path = new_path(ctx, "records")
+    w = RecordWriter(path)
+    try:
+        for r in records:
+            w.write(r)
+        w.flush()
+    finally:
+        w.close()
+    rd = RecordReader(path)
+    try:
+        back = list(rd)
+    finally:
+        rd.close()
+    return path, back
+
+
+def do_rdumpcsv(ctx, case, mk):
+    """rdump --csv / -C / --mode=csv / -m csv: stdout parsed by the standard csv parser (default dialect) == header per run of one
+    type + one row of text forms per record.  This is the DEFAULT csv path: nothing here is a known finding."""
+    from flow.record import RecordDescriptor
+
+    rng = mk.rng
+    mk.ntypes += 1
+    console = RecordDescriptor("t%d/console" % mk.ntypes, [("string", "name"), ("string", "text"), ("varint", "number")])
+    fixed = ["Downloading 10%\rDownloading 100%", "old mac line\r", "\r", "first\nsecond", "first\r\nsecond", 'say "hi"', "a,b", " lead", "trail ", "\rstart",
+             "tab\there", "mixed\r,\"q\"", "x\ry\rz"]
+    hostile = [console.recordType(name="row%d" % i, text=t, number=i) for i, t in enumerate(rng.sample(fixed, rng.randint(4, len(fixed))))]
+    records = mk.sequence() + hostile + mk.sequence()
+    ctx.ev()
+    try:
+        src, back = write_source(ctx, records)
+    except Exception as e:  # noqa: BLE001 - the stream writer's business (C01), not this property's
+        ctx.event("rdumpcsv_source_not_writable_skipped")
+        return
+    try:
+        back = split_renderable(ctx, back, lambda r: [tm.cell_text(v) for v in tm.slots_and_values(r)[1].values()], "csv")
+        if len(back) != len(records):
+            ctx.event("rdumpcsv_source_changed_skipped")
+            return
+        mode = case.get("mode") or ["--csv"]
+        out = run_rdump(ctx, [src] + list(mode))
+    finally:
+        try:
+            os.unlink(src)
+        except OSError:
+            pass
+    if out is None:
+        return
+    text = out.decode("utf-8", "surrogateescape")
+    exp = tm.expected_csv_rows(back, None, None, type_key)
+    for cells, kind, _, _ in exp:
+        if kind == "row":
+            cell_features(ctx, cells)
+    detail = {"mode": mode, "records": describe(back), "stdout": text[:600]}
+    try:
+        got = tm.std_parse(text)
+    except csv.Error as e:
+        ctx.violation(None, "rdump csv mode: stdout is not parsable by a standard CSV parser", detail=dict(detail, error=repr(e)))
+        return
+    why = compare_rows(got, exp)
+    ctx.cell("rdumpcsv", " ".join(mode))
+    if why is not None:
+        bare = any(kind == "row" and any(("\r" in c.replace("\r\n", "")) and "," not in c and '"' not in c and "\n" not in c for c in cells) for cells, kind, _, _ in exp)
+        ctx.violation(None, "rdump csv mode (default line terminator): a standard CSV parser does not recover header + one row per record exactly",
+                      detail=dict(detail, why=why, a_cell_holds_a_bare_CR=bare))
+        return
+    ctx.event("rdumpcsv_outputs_parsed_equal")
+    ctx.event("rdumpcsv_rows_checked", len(exp))
+    ctx.nontrivial("rdumpcsv", mode, [type_key(r) for r in back], case["s"])
+    ctx.sample({"kind": "rdumpcsv", "mode": mode, "stdout": text[:300]}, kind="rdumpcsv:" + mode[0])
+
+
+def defang_records(rng, mk, n):
+    from flow.record import RecordDescriptor
+
+    mk.ntypes += 1
+    desc = RecordDescriptor("t%d/ioc" % mk.ntypes, [("uri", "url"), ("string", "ref"), ("net.ipaddress", "ip"), ("wstring", "w"), ("varint", "hits")])
+    hosts = ["localhost", "dc01", "intranet", "[::1]", "[2001:db8::1]", "www.example.com", "10.0.0.1", "a.b", "fileserver", "ünï", ""]
+    schemes = ["http://", "https://", "ftp://", "file://", "ldap://", "ldaps://", "HTTP://", "hTTps://", "Ldap://", "FILE://", "", "gopher://", "http:/", "xhttp://"]
+
+    def value():
+        r = rng.random()
+        if r < 0.5:
+            return rng.choice(DEFANG_VALUES)
+        v = rng.choice(schemes) + rng.choice(hosts) + rng.choice(["", ":8080", "/", "/path", "/p.q/r", ":443/x.html", "/etc/passwd"])
+        if r > 0.85:
+            v += rng.choice([" ", ", ", "\n"]) + rng.choice(schemes) + rng.choice(hosts) + rng.choice(["", "/"])
+        return v
+
+    out = []
+    for i in range(n):
+        out.append(desc.recordType(url=value(), ref=value(), w=value(), hits=i,
+                                   ip=rng.choice(["10.0.0.1", "::1", "192.168.1.254", "2001:db8::1", "255.255.255.255", "fe80::1"])))
+    return out
+
+
+def defang_template(rng):
+    parts = ["{hits}"] + rng.sample(["{url:defang}", "{ref:defang}", "{ip:defang}", "{w:defang}", "{url}", "{url!r}", "{nope}", "{w}"], rng.randint(2, 6))
+    return rng.choice(["|", " ; ", "\\t", " → "]).join(parts)
+
+
+def do_defang(ctx, case, mk):
+    """The documented `defang` format spec against the reference model, through format() / str.format / f-string on string, uri and
+    net.ipaddress values and through text-writer templates (keyword argument and text://...?format_spec= query)."""
+    import urllib.parse
+
+    import flow.record.fieldtypes as ft
+    from flow.record import RecordWriter
+
+    rng = mk.rng
+    ctx.ev()
+    records = defang_records(rng, mk, rng.choice([2, 4, 6, 8]))
+    for r in records:
+        for name in ("url", "ref", "w", "ip"):
+            v = getattr(r, name)
+            want = tm.ref_defang(str(v))
+            try:
+                got = {"format": format(v, "defang"), "str.format": "{:defang}".format(v), "f-string": f"{v:defang}",
+                       "fresh": format(ft.uri(str(v)) if name == "url" else (ft.string(str(v)) if name != "ip" else ft.net.ipaddress(str(v))), "defang")}
+            except Exception as e:  # noqa: BLE001
+                ctx.violation(None, "the defang format spec raised %s" % type(e).__name__, detail={"value": str(v), "exception": repr(e)[:200]})
+                continue
+            for how, text in got.items():
+                if text != want:
+                    ctx.violation(None, "the defang format spec does not rewrite the value as documented (scheme and last host dot)",
+                                  detail={"via": how, "field_type": type(v).__name__, "value": str(v), "rendered": text, "expected": want})
+                else:
+                    ctx.event("defang_direct_checked")
+            ctx.cell("defang", "dot" if "." in str(v) else "nodot", "scheme" if "://" in str(v) else "noscheme")
+    template = defang_template(rng)
+    effective = tm.translate_escapes(template)
+    try:
+        expected = "".join(tm.apply_template(effective, tm.slots_and_values(r)[1]) + "\n" for r in records)
+    except (tm.Undefined, ValueError):
+        ctx.event("defang_template_undefined_skipped")
+        return
+    path = new_path(ctx, "txt")
+    route = rng.choice(["kwarg", "query"])
+    try:
+        if route == "kwarg":
+            w = RecordWriter("text://" + path, format_spec=template)
+        else:
+            w = RecordWriter("text://%s?format_spec=%s" % (path, urllib.parse.quote(template, safe="")))
+        try:
+            for r in records:
+                w.write(r)
+            w.flush()
+        finally:
+            w.close()
+        with open(path, "rb") as f:
+            text = f.read().decode("utf-8", "surrogateescape")
+        os.unlink(path)
+    except Exception as e:  # noqa: BLE001
+        ctx.violation(None, "text writer raised %s for a valid record" % type(e).__name__, detail={"template": template, "exception": repr(e)[:300]})
+        return
+    if text != expected:
+        pos = next((i for i in range(min(len(text), len(expected))) if text[i] != expected[i]), min(len(text), len(expected)))
+        ctx.violation(None, "text output differs from the format template applied to the record's fields",
+                      detail={"template": template, "route": route, "at": pos, "written": text[max(0, pos - 60):pos + 120],
+                              "expected": expected[max(0, pos - 60):pos + 120], "records": describe(records)})
+        return
+    ctx.event("defang_template_records_checked", len(records))
+    ctx.nontrivial("defang", template, [str(r.url) for r in records], case["s"])
+    ctx.sample({"kind": "defang", "template": template, "text": text[:300]}, kind="defang:" + route)
+
+
+def do_rdumpfmt(ctx, case, mk):
+    """rdump -f / --format TEMPLATE (stdout of a child process) == the template applied to each record, defang spec included."""
+    rng = mk.rng
+    ctx.ev()
+    if rng.random() < 0.6:
+        records = defang_records(rng, mk, rng.choice([3, 6, 9]))
+        template = defang_template(rng)
+    else:
+        records = [r for r in mk.sequence() if not hasattr(r, "descriptors")][:6]
+        if not records:
+            return
+        records = [r for r in records if type_key(r) == type_key(records[0])]
+        names, values, types, _ = tm.slots_and_values(records[0])
+        template, _ = make_template(rng, names, values, types)
+    if any(0xD800 <= ord(c) <= 0xDFFF for c in template) or template.strip() == "":
+        template = "{_version}|" + "".join(c for c in template if not 0xD800 <= ord(c) <= 0xDFFF)  # rdump url-encodes the template itself
+    try:
+        src, back = write_source(ctx, records)
+    except Exception:  # noqa: BLE001
+        ctx.event("rdumpfmt_source_not_writable_skipped")
+        return
+    try:
+        try:
+            expected = "".join(tm.apply_template(tm.translate_escapes(template), tm.slots_and_values(r)[1]) + "\n" for r in back)
+        except (tm.Undefined, ValueError):
+            ctx.event("rdumpfmt_template_undefined_skipped")
+            return
+        flag = rng.choice(["-f", "--format"])
+        out = run_rdump(ctx, [src, flag, template])
+    finally:
+        try:
+            os.unlink(src)
+        except OSError:
+            pass
+    if out is None:
+        return
+    text = out.decode("utf-8", "surrogateescape")
+    ctx.cell("rdumpfmt", "defang" if ":defang" in template else "plain")
+    if text != expected:
+        pos = next((i for i in range(min(len(text), len(expected))) if text[i] != expected[i]), min(len(text), len(expected)))
+        ctx.violation(None, "rdump --format output differs from the format template applied to the record's fields",
+                      detail={"template": template, "at": pos, "written": text[max(0, pos - 60):pos + 120], "expected": expected[max(0, pos - 60):pos + 120]})
+        return
+    ctx.event("rdumpfmt_records_checked", len(back))
+    ctx.nontrivial("rdumpfmt", template, case["s"])
+    ctx.sample({"kind": "rdumpfmt", "template": template, "stdout": text[:300]}, kind="rdumpfmt")
+
+
+DISPATCH = {"csv": do_csv, "line": do_line, "text": do_text, "csvread": do_csvread, "gmutwrite": do_gmutwrite, "tzdisplay": do_tzdisplay,
+            "rdumpcsv": do_rdumpcsv, "defang": do_defang, "rdumpfmt": do_rdumpfmt}
 
 
 def execute(ctx, case):
@@ -1110,7 +1376,11 @@ def finish(ctx):
         for ev in ("tz:NONE_direct_renderings_checked", "tz:NONE_equal_instants_with_different_offsets", "tz:NONE_csv_rows_checked",
                    "tz:NONE_line_blocks_checked", "tz:NONE_text_template_records_checked", "tz:zone_direct_renderings_checked"):
             ctx.require(ctx.events.get(ev, 0) > 0, "display-configuration monitor %s never ran" % ev)
-    for ev in ("gmutwrite_rerendered_ok", "csv_rows_checked", "csv_type_changes", "line_field_lines_matched", "text_records_matched", "text_repr_fields_checked",
+    if ctx.events.get("kind:rdumpcsv", 0):
+        ctx.require(ctx.events.get("rdumpcsv_rows_checked", 0) > 0, "rdump csv-mode monitor never compared a row")
+    if ctx.events.get("kind:rdumpfmt", 0):
+        ctx.require(ctx.events.get("rdumpfmt_records_checked", 0) > 0, "rdump --format monitor never compared a record")
+    for ev in ("defang_direct_checked", "defang_template_records_checked", "gmutwrite_rerendered_ok", "csv_rows_checked", "csv_type_changes", "line_field_lines_matched", "text_records_matched", "text_repr_fields_checked",
                "text_template_unknown_keys", "text_template_escapes_translated", "text_template_backslashes_kept_literal",
                "text_templates_with_escape_and_nonascii", "text_expression_templates_matched", "text_template_attribute_accesses",
                "text_template_index_accesses", "text_template_nested_specs", "csvread_cells_checked", "cell:surrogate", "cell:quote", "cell:comma", "cell:cr", "cell:lf"):
